@@ -11,6 +11,7 @@ import (
 
 	logging "github.com/ipfs/go-log/v2"
 	"github.com/ipld/go-storethehash/store/types"
+	"github.com/ipld/go-storethehash/store/verifhook"
 )
 
 var log = logging.Logger("storethehash/index")
@@ -126,6 +127,7 @@ func (index *Index) gc(ctx context.Context, scanFree bool) (int64, int, error) {
 	index.flushLock.Lock()
 	lastFileNum := index.fileNum
 	index.flushLock.Unlock()
+	verifhook.At("index.gc.start")
 
 	if header.FirstFile == lastFileNum {
 		return reclaimed, emptied, nil
@@ -163,10 +165,12 @@ func (index *Index) gc(ctx context.Context, scanFree bool) (int64, int, error) {
 				if err != nil {
 					return 0, 0, err
 				}
+				verifhook.At("index.gc.header_written")
 				err = os.Remove(indexPath)
 				if err != nil {
 					return 0, 0, err
 				}
+				verifhook.At("index.gc.unlinked")
 				seenFirst = true
 			}
 		}
@@ -246,9 +250,11 @@ func (index *Index) truncateFreeFiles(ctx context.Context) (int64, int, error) {
 			if err = writeHeader(index.headerPath, header); err != nil {
 				return 0, 0, err
 			}
+			verifhook.At("index.gc.free.header_written")
 			if err = os.Remove(indexPath); err != nil {
 				return 0, 0, err
 			}
+			verifhook.At("index.gc.free.unlinked")
 			emptied++
 			log.Debugw("Removed unused index file", "file", indexPath)
 			continue
@@ -263,6 +269,7 @@ func (index *Index) truncateFreeFiles(ctx context.Context) (int64, int, error) {
 			log.Errorw("Error truncating index file", "err", err, "file", indexPath)
 			continue
 		}
+		verifhook.At("index.gc.free.truncated")
 		emptied++
 		log.Debugw("Emptied unused index file", "file", indexPath)
 	}
@@ -327,6 +334,7 @@ func (index *Index) reapIndexRecords(ctx context.Context, fileNum uint32, indexP
 					if err != nil {
 						return false, fmt.Errorf("cannot write to index file %s: %w", file.Name(), err)
 					}
+					verifhook.At("index.gc.merged")
 					mergedCount++
 				}
 			} else {
@@ -356,6 +364,7 @@ func (index *Index) reapIndexRecords(ctx context.Context, fileNum uint32, indexP
 		if err != nil {
 			return false, err
 		}
+		verifhook.At("index.gc.busy_checked")
 		if inUse {
 			// Record is in use.
 			busyAt = pos
@@ -383,6 +392,7 @@ func (index *Index) reapIndexRecords(ctx context.Context, fileNum uint32, indexP
 			if _, err = file.WriteAt(sizeBuf, freeAt); err != nil {
 				return false, fmt.Errorf("cannot write to index file %s: %w", file.Name(), err)
 			}
+			verifhook.At("index.gc.marked")
 			freedCount++
 		}
 		pos += sizePrefixSize + int64(size)
@@ -397,6 +407,7 @@ func (index *Index) reapIndexRecords(ctx context.Context, fileNum uint32, indexP
 		if err = file.Truncate(freeAt); err != nil {
 			return false, fmt.Errorf("failed to truncate index file: %w", err)
 		}
+		verifhook.At("index.gc.truncated")
 		log.Debugw("Removed free records from end of index file", "file", fileName, "at", freeAt, "bytes", freeAtSize)
 		if freeAt == 0 {
 			return true, nil
